@@ -9,12 +9,13 @@ def build():
 
 
 PREFIXES = ['t', 'n', 'foo', 'a1b', 'x-', 'node', 'r2d', 'h_', 'c0', 'T.', 'n12', 'a05', 'node10', 'x100', 'r7_3']
+LONGPFX = ['q' * 62 + 'z', 'w' * 79, 'v' * 80, 'u' * 81 + '-', 'y' * 130]       # around the 64 / 80 byte name buffers of liblsd (F37)
 
 
 def gen_name(R, pool):
     r = R.random()
     if pool and r < 0.35: return R.choice(pool)
-    p = R.choice(PREFIXES)
+    p = R.choice(PREFIXES) if R.random() > 0.03 else R.choice(LONGPFX)
     k = R.random()
     if k < 0.08: n = p.rstrip('0123456789-_.') or 'z'        # no numeric suffix
     elif k < 0.5: n = p + str(R.randint(0, 30))
@@ -27,10 +28,10 @@ def gen_name(R, pool):
 
 def gen_expr(R):
     """a bracket expression within the documented limits, or (rarely) a malformed one"""
-    p = R.choice(PREFIXES)
+    p = R.choice(PREFIXES) if R.random() > 0.04 else R.choice(LONGPFX)
     parts = []
     for _ in range(R.randint(1, 3)):
-        w = R.choice([0, 0, 2, 3])
+        w = R.choice([0, 0, 2, 3]) if R.random() > 0.04 else R.choice([14, 15, 16, 19, 25])      # numeric parts longer than 14 digits (F37)
         lo = R.randint(0, 40)
         if R.random() < 0.6:
             hi = lo + R.randint(0, 12)
